@@ -165,6 +165,7 @@ func doBuild(wantSim bool) *Build {
 		for _, e := range ents {
 			if strings.HasPrefix(e.Name(), "verifsim-") {
 				if info, err := e.Info(); err == nil && time.Since(info.ModTime()) > 6*time.Hour {
+					unmountUnder(filepath.Join(scratchRoot(), e.Name()))
 					os.RemoveAll(filepath.Join(scratchRoot(), e.Name()))
 				}
 			}
@@ -176,7 +177,7 @@ func doBuild(wantSim bool) *Build {
 	}
 	os.Chmod(scratch, 0755)
 	b.Scratch = scratch
-	cleanups = append(cleanups, func() { os.RemoveAll(scratch) })
+	cleanups = append(cleanups, func() { unmountUnder(scratch); os.RemoveAll(scratch) })
 	env := goEnv()
 
 	if out, err := runCmd(b.RepoDir, env, "go", "version"); err == nil {
